@@ -2,6 +2,7 @@ package props
 
 import (
 	"fmt"
+	"math"
 	"sort"
 	"strings"
 
@@ -142,6 +143,12 @@ func runC03(c *core.Ctx) {
 			u[i] = i*3 + 1
 		}
 		setCase(c, "int-huge", u, func(a, b int) bool { return a < b }, func(v int) string { return fmt.Sprint(v) })
+		return
+	}
+	if c.Index%20 == 18 {
+		// float members: +0.0 and -0.0 are == and therefore ONE member
+		u := []float64{0, math.Copysign(0, -1), 1.5, -1.5, math.Inf(1), 2}[:c.R.Range(2, 6)]
+		setCaseFloat(c, u)
 		return
 	}
 	if c.Index%20 == 19 {
@@ -583,6 +590,43 @@ func setCase[T comparable](c *core.Ctx, tname string, univ []T, less func(a, b T
 			}
 			c.Count("sets_drained_by_remove_then_reused", 1)
 		}
+		// every observer, then exactly 256 (sometimes 65536) successful changes with no
+		// observation in between, then every observer again: nothing an observer remembers
+		// may survive a number of changes that a small counter cannot tell from zero
+		if r.Chance(1, 12) {
+			if !check(o, "before-storm") {
+				return nil
+			}
+			m := 256
+			if r.Chance(1, 8) {
+				m = 65536
+			}
+			v := univ[r.Intn(len(univ))]
+			had := o.m[v]
+			for i := 0; i < m; i++ { // m successful changes of v's membership
+				if o.m[v] {
+					o.s.Remove(v)
+					delete(o.m, v)
+				} else {
+					o.s.Add(v)
+					o.m[v] = true
+				}
+			}
+			w := univ[r.Intn(len(univ))] // one more change so that the contents differ from before
+			if o.m[w] {
+				o.s.Remove(w)
+				delete(o.m, w)
+			} else {
+				o.s.Add(w)
+				o.m[w] = true
+			}
+			_ = had
+			hist = append(hist, fmt.Sprintf("%s: %d successful Add/Remove(%v) without an observation, then one change of %v", name, m, v, w))
+			if !check(o, "storm") {
+				return nil
+			}
+			c.Count("counted_change_storms", 1)
+		}
 		for _, pc := range postChecks {
 			if !pc() {
 				return nil
@@ -811,4 +855,60 @@ func setCase[T comparable](c *core.Ctx, tname string, univ []T, less func(a, b T
 		}
 		c.Sample(map[string]any{"type": tname, "pairing": pairing, "calls": len(hist), "history_prefix": h})
 	}
+}
+
+// setCaseFloat: both implementations over float64 members including both zeros; the
+// model identifies +0.0 and -0.0 (they are ==).
+func setCaseFloat(c *core.Ctx, u []float64) {
+	r := c.R
+	for _, impl := range []string{"maps", "sync2"} {
+		var s sets.Set[float64]
+		if impl == "maps" {
+			s = make(tmaps.Set[float64])
+		} else {
+			s = new(sync2.Set[float64])
+		}
+		model := map[float64]bool{} // Go map keys: +0.0 and -0.0 are one key
+		var hist []string
+		for i := 0; i < 60; i++ {
+			v := u[r.Intn(len(u))]
+			switch r.Intn(4) {
+			case 0, 1:
+				hist = append(hist, fmt.Sprintf("Add(%v)", v))
+				if got := s.Add(v); got != !model[v] {
+					c.Violate("Add:return["+impl+"][float members]", fmt.Sprintf("Add(%v) returned %v, membership before was %v (+0.0 and -0.0 are one member) [%v]", v, got, model[v], hist), nil)
+					return
+				}
+				model[v] = true
+			case 2:
+				hist = append(hist, fmt.Sprintf("Remove(%v)", v))
+				if got := s.Remove(v); got != model[v] {
+					c.Violate("Remove:return["+impl+"][float members]", fmt.Sprintf("Remove(%v) returned %v, membership before was %v [%v]", v, got, model[v], hist), nil)
+					return
+				}
+				delete(model, v)
+			case 3:
+				if s.Has(v) != model[v] || s.Has(-v) != model[-v] || s.Len() != len(model) || len(s.Slice()) != len(model) {
+					c.Violate("Has/Len["+impl+"][float members]", fmt.Sprintf("Has(%v)=%v Has(%v)=%v Len=%d, model %v [%v]", v, s.Has(v), -v, s.Has(-v), s.Len(), model, hist), nil)
+					return
+				}
+			}
+		}
+		o := tmaps.NewSetFromSlice([]float64{math.Copysign(0, -1), 9})
+		if u := s.Union(o); u.Len() != len(model)+func() int {
+			n := 0
+			if !model[0] {
+				n++
+			}
+			if !model[9] {
+				n++
+			}
+			return n
+		}() {
+			c.Violate("Union["+impl+"][float members]", fmt.Sprintf("Union with {-0.0, 9} has %d members; the receiver has %v", u.Len(), model), nil)
+			return
+		}
+	}
+	c.Count("float_member_cases", 1)
+	c.NonTrivial(core.Mix(c.Seed, 303))
 }
